@@ -11,6 +11,8 @@ def run():
                   vlib.model_check("PuSuspendImpl", "PuSuspendImpl.cfg", timeout=600))
     r = vlib.model_check("PuSuspendImpl", "PuSuspendImpl_dev.cfg", expect_ok=False, timeout=600)
     chk.add_model("PuSuspendImpl/variant resume_notifies_once (must violate)", r, note="violated: %s" % r["violated"])
+    r2 = vlib.model_check("PuSuspendImpl", "PuSuspendImpl_dev2.cfg", expect_ok=False, timeout=600)
+    chk.add_model("PuSuspendImpl/variant suspend_returns_in_pre_sleep (must violate)", r2, note="violated: %s" % r2["violated"])
     (binary,) = vlib.build_harness(["pu_harness"])
     n = 4 if chk.thorough() else 1
     runs = []
